@@ -1,17 +1,295 @@
 //go:build verif
 
 // Contracts for proto/protowire (dgv, see /verif/DESIGN.md §4). Comment-only file.
+// Spec functions are transcribed from the Protocol Buffers encoding document, not from the code.
 package protowire
 
+// ---- base-128 varints -----------------------------------------------------------------------
 //@ pure vsize(v uint64) int = ite(v < 1<<7, 1, ite(v < 1<<14, 2, ite(v < 1<<21, 3, ite(v < 1<<28, 4, ite(v < 1<<35, 5, \
 //@      ite(v < 1<<42, 6, ite(v < 1<<49, 7, ite(v < 1<<56, 8, ite(v < 1<<63, 9, 10)))))))))
-//@ pure venc(v uint64, k int) byte = ite(k+1 < vsize(v), byte(v >> uint64(7*k)) | 0x80, byte(v >> uint64(7*k)))
+// vgrp7: the k-th 7-bit group of v (written as a case list so that every shift is by a constant)
+//@ pure vgrp7(v uint64, k int) byte = ite(k == 0, byte(v), ite(k == 1, byte(v >> 7), ite(k == 2, byte(v >> 14), ite(k == 3, byte(v >> 21), \
+//@      ite(k == 4, byte(v >> 28), ite(k == 5, byte(v >> 35), ite(k == 6, byte(v >> 42), ite(k == 7, byte(v >> 49), ite(k == 8, byte(v >> 56), byte(v >> 63))))))))))
+//@ pure venc(v uint64, k int) byte = ite(k+1 < vsize(v), vgrp7(v, k) | 0x80, vgrp7(v, k))
+// vlen: encoded length of the varint starting at b[o], 0 when truncated or longer than 10 bytes / overflowing 64 bits
+//@ pure vlen(b []byte, o int) int = \
+//@   ite(o+0 >= len(b), 0, ite(b[o+0] < 0x80, 1, ite(o+1 >= len(b), 0, ite(b[o+1] < 0x80, 2, \
+//@   ite(o+2 >= len(b), 0, ite(b[o+2] < 0x80, 3, ite(o+3 >= len(b), 0, ite(b[o+3] < 0x80, 4, \
+//@   ite(o+4 >= len(b), 0, ite(b[o+4] < 0x80, 5, ite(o+5 >= len(b), 0, ite(b[o+5] < 0x80, 6, \
+//@   ite(o+6 >= len(b), 0, ite(b[o+6] < 0x80, 7, ite(o+7 >= len(b), 0, ite(b[o+7] < 0x80, 8, \
+//@   ite(o+8 >= len(b), 0, ite(b[o+8] < 0x80, 9, ite(o+9 >= len(b), 0, ite(b[o+9] < 2, 10, 0))))))))))))))))))))
+//@ pure vgrp(b []byte, o int, k int) uint64 = uint64(b[o+k] & 0x7f) << uint64(7*k)
+//@ pure vsum(b []byte, o int, n int) uint64 = \
+//@   ite(n <= 0, 0, vgrp(b,o,0)) | ite(n <= 1, 0, vgrp(b,o,1)) | ite(n <= 2, 0, vgrp(b,o,2)) | ite(n <= 3, 0, vgrp(b,o,3)) | \
+//@   ite(n <= 4, 0, vgrp(b,o,4)) | ite(n <= 5, 0, vgrp(b,o,5)) | ite(n <= 6, 0, vgrp(b,o,6)) | ite(n <= 7, 0, vgrp(b,o,7)) | \
+//@   ite(n <= 8, 0, vgrp(b,o,8)) | ite(n <= 9, 0, vgrp(b,o,9))
+//@ pure vval(b []byte, o int) uint64 = vsum(b, o, vlen(b, o))
+// voverflow: ten bytes are present, the first nine have the continuation bit and the tenth is >= 2
+//@ pure voverflow(b []byte, o int) bool = o+10 <= len(b) && b[o+0] >= 0x80 && b[o+1] >= 0x80 && b[o+2] >= 0x80 && b[o+3] >= 0x80 && \
+//@   b[o+4] >= 0x80 && b[o+5] >= 0x80 && b[o+6] >= 0x80 && b[o+7] >= 0x80 && b[o+8] >= 0x80 && b[o+9] >= 2
+
+// ---- zig-zag ---------------------------------------------------------------------------------
+//@ pure zz(x int64) uint64 = uint64(x << 1) ^ uint64(x >> 63)
+//@ pure unzz(u uint64) int64 = int64(u >> 1) ^ -int64(u & 1)
+//@ pure unzz32(u uint32) int32 = int32(u >> 1) ^ -int32(u & 1)
+
+// ---- little-endian fixed width ---------------------------------------------------------------
+//@ pure le32(b []byte, o int) uint32 = uint32(b[o]) | uint32(b[o+1])<<8 | uint32(b[o+2])<<16 | uint32(b[o+3])<<24
+//@ pure le64(b []byte, o int) uint64 = uint64(b[o]) | uint64(b[o+1])<<8 | uint64(b[o+2])<<16 | uint64(b[o+3])<<24 | \
+//@   uint64(b[o+4])<<32 | uint64(b[o+5])<<40 | uint64(b[o+6])<<48 | uint64(b[o+7])<<56
+
+// "r is b with n bytes appended, the k-th of which is E" — Go's append semantics included: the backing
+// array is reused exactly when it has room, nothing but the appended window is written.
+//@ template appends(r, b, n, E)
+//@   ensures len: len(r) == len(b) + n
+//@   ensures prefix: forall i :: 0 <= i && i < len(b) ==> r[i] == old(b[i])
+//@   ensures enc: forall k :: 0 <= k && k < n ==> r[len(b)+k] == E
+//@   ensures inplace: len(b) + n <= cap(b) ==> same(r, b) && cap(r) == cap(b)
+//@   ensures grown: len(b) + n > cap(b) ==> fresh(r)
+//@   modifies b[len(b):len(b)+n] if len(b) + n <= cap(b)
+//@   split len(b) + n <= cap(b)
+//@ end
+
+// length-delimited append: varint(len(v)) followed by the bytes of v (two windows, proved separately)
+//@ template appends_ld(r, b, v)
+//@   ensures len: len(r) == len(b) + vsize(uint64(len(v))) + len(v)
+//@   ensures prefix: forall i :: 0 <= i && i < len(b) ==> r[i] == old(b[i])
+//@   ensures hdr: forall k :: 0 <= k && k < vsize(uint64(len(v))) ==> r[len(b)+k] == venc(uint64(len(v)), k)
+//@   ensures payload: forall k :: 0 <= k && k < len(v) ==> r[len(b)+vsize(uint64(len(v)))+k] == old(v[k])
+//@   ensures inplace: len(b) + vsize(uint64(len(v))) + len(v) <= cap(b) ==> same(r, b) && cap(r) == cap(b)
+//@   ensures grown: len(b) + vsize(uint64(len(v))) + len(v) > cap(b) ==> fresh(r)
+//@   modifies b[len(b):len(b)+vsize(uint64(len(v)))+len(v)] if len(b) + vsize(uint64(len(v))) + len(v) <= cap(b)
+//@   split len(b) + vsize(uint64(len(v))) + len(v) <= cap(b)
+//@ end
 
 //@ spec AppendVarint
 //@   props C20 C09 C10
-//@   ensures len: len(r0) == len(b) + vsize(v)
-//@   ensures prefix: forall i :: 0 <= i && i < len(b) ==> r0[i] == old(b[i])
-//@   ensures enc: forall k :: 0 <= k && k < vsize(v) ==> r0[len(b)+k] == venc(v, k)
-//@   ensures inplace: len(b) + vsize(v) <= cap(b) ==> same(r0, b)
-//@   ensures grown: len(b) + vsize(v) > cap(b) ==> fresh(r0)
-//@   modifies b[len(b):len(b)+vsize(v)]
+//@   use appends(r0, b, vsize(v), venc(v, k))
+
+//@ spec SizeVarint
+//@   props C20
+//@   ensures size: r0 == vsize(v)
+
+//@ spec ConsumeVarint
+//@   props C20 C07 C06
+//@   ensures ok: vlen(b, 0) > 0 ==> n == vlen(b, 0) && v == vval(b, 0)
+//@   ensures bad: vlen(b, 0) == 0 ==> v == 0 && (n == -1 || n == -3)
+//@   ensures overflow: n == -3 <==> voverflow(b, 0)
+
+//@ lemma varint_roundtrip(b []byte, o int, v uint64)
+//@   props C20
+//@   requires 0 <= o && o <= len(b) && o + vsize(v) <= len(b)
+//@   requires forall k :: 0 <= k && k < vsize(v) ==> b[o+k] == venc(v, k)
+//@   ensures len: vlen(b, o) == vsize(v)
+//@   ensures val: vval(b, o) == v
+
+//@ spec AppendFixed32
+//@   props C20
+//@   use appends(r0, b, 4, byte(v >> uint32(8*k)))
+
+//@ spec AppendFixed64
+//@   props C20
+//@   use appends(r0, b, 8, byte(v >> uint64(8*k)))
+
+//@ spec ConsumeFixed32
+//@   props C20 C07 C06
+//@   ensures ok: len(b) >= 4 ==> n == 4 && v == le32(b, 0)
+//@   ensures bad: len(b) < 4 ==> n == -1 && v == 0
+
+//@ spec ConsumeFixed64
+//@   props C20 C07 C06
+//@   ensures ok: len(b) >= 8 ==> n == 8 && v == le64(b, 0)
+//@   ensures bad: len(b) < 8 ==> n == -1 && v == 0
+
+//@ lemma fixed32_roundtrip(b []byte, o int, v uint32)
+//@   props C20
+//@   requires 0 <= o && o <= len(b) && o + 4 <= len(b)
+//@   requires forall k :: 0 <= k && k < 4 ==> b[o+k] == byte(v >> uint32(8*k))
+//@   ensures val: le32(b, o) == v
+
+//@ lemma fixed64_roundtrip(b []byte, o int, v uint64)
+//@   props C20
+//@   requires 0 <= o && o <= len(b) && o + 8 <= len(b)
+//@   requires forall k :: 0 <= k && k < 8 ==> b[o+k] == byte(v >> uint64(8*k))
+//@   ensures val: le64(b, o) == v
+
+//@ spec ConsumeBytes
+//@   props C20 C07 C06
+//@   ensures trunc: vlen(b, 0) == 0 ==> n < 0 && all == n && len(v) == 0
+//@   ensures short: vlen(b, 0) > 0 && vval(b, 0) > uint64(len(b) - vlen(b, 0)) ==> n == -1 && all == -1 && len(v) == 0
+//@   ensures ok: vlen(b, 0) > 0 && vval(b, 0) <= uint64(len(b) - vlen(b, 0)) ==> n == vlen(b, 0) && all == n + int(vval(b, 0)) && \
+//@       len(v) == int(vval(b, 0)) && sameregion(v, b) && offset(v) == offset(b) + n
+
+//@ spec EncodeZigZag
+//@   props C20
+//@   ensures r0 == zz(v)
+
+//@ spec DecodeZigZag
+//@   props C20
+//@   ensures r0 == unzz(x)
+
+//@ lemma zigzag_roundtrip(x int64, u uint64)
+//@   props C20
+//@   ensures dec_enc: unzz(zz(x)) == x
+//@   ensures enc_dec: zz(unzz(u)) == u
+//@   ensures small32: -2147483648 <= x && x <= 2147483647 ==> unzz32(uint32(zz(x))) == int32(x) && zz(x) <= 0xffffffff
+
+// ---- BinaryDecoder: per-kind views of the same wire primitives ---------------------------------
+//@ spec (BinaryDecoder).DecodeBool
+//@   props C20 C07
+//@   ensures n: vlen(b, 0) > 0 ==> r1 == vlen(b, 0)
+//@   ensures err: vlen(b, 0) == 0 ==> r1 < 0
+//@   ensures val: vlen(b, 0) > 0 && vval(b, 0) <= 1 ==> r0 == (vval(b, 0) == 1)
+
+//@ spec (BinaryDecoder).DecodeByte
+//@   props C20 C07
+//@   requires len(b) >= 1
+//@   ensures r0 == b[0]
+
+//@ spec (BinaryDecoder).DecodeInt32
+//@   props C20 C07
+//@   ensures n: vlen(b, 0) > 0 ==> r1 == vlen(b, 0) && r0 == int32(vval(b, 0))
+//@   ensures err: vlen(b, 0) == 0 ==> r1 < 0
+
+//@ spec (BinaryDecoder).DecodeSint32
+//@   props C20 C07
+//@   ensures n: vlen(b, 0) > 0 ==> r1 == vlen(b, 0) && r0 == unzz32(uint32(vval(b, 0)))
+//@   ensures err: vlen(b, 0) == 0 ==> r1 < 0
+
+//@ spec (BinaryDecoder).DecodeUint32
+//@   props C20 C07
+//@   ensures n: vlen(b, 0) > 0 ==> r1 == vlen(b, 0) && r0 == uint32(vval(b, 0))
+//@   ensures err: vlen(b, 0) == 0 ==> r1 < 0
+
+//@ spec (BinaryDecoder).DecodeInt64
+//@   props C20 C07
+//@   ensures n: vlen(b, 0) > 0 ==> r1 == vlen(b, 0) && r0 == int64(vval(b, 0))
+//@   ensures err: vlen(b, 0) == 0 ==> r1 < 0
+
+//@ spec (BinaryDecoder).DecodeSint64
+//@   props C20 C07
+//@   ensures n: vlen(b, 0) > 0 ==> r1 == vlen(b, 0) && r0 == unzz(vval(b, 0))
+//@   ensures err: vlen(b, 0) == 0 ==> r1 < 0
+
+//@ spec (BinaryDecoder).DecodeUint64
+//@   props C20 C07
+//@   ensures n: vlen(b, 0) > 0 ==> r1 == vlen(b, 0) && r0 == vval(b, 0)
+//@   ensures err: vlen(b, 0) == 0 ==> r1 < 0
+
+//@ spec (BinaryDecoder).DecodeSfixed32
+//@   props C20 C07
+//@   ensures ok: len(b) >= 4 ==> r1 == 4 && r0 == int32(le32(b, 0))
+//@   ensures err: len(b) < 4 ==> r1 < 0
+
+//@ spec (BinaryDecoder).DecodeFixed32
+//@   props C20 C07
+//@   ensures ok: len(b) >= 4 ==> r1 == 4 && r0 == le32(b, 0)
+//@   ensures err: len(b) < 4 ==> r1 < 0
+
+//@ spec (BinaryDecoder).DecodeFloat32
+//@   props C20 C07
+//@   ensures ok: len(b) >= 4 ==> r1 == 4 && bits(r0) == le32(b, 0)
+//@   ensures err: len(b) < 4 ==> r1 < 0
+
+//@ spec (BinaryDecoder).DecodeSfixed64
+//@   props C20 C07
+//@   ensures ok: len(b) >= 8 ==> r1 == 8 && r0 == int64(le64(b, 0))
+//@   ensures err: len(b) < 8 ==> r1 < 0
+
+//@ spec (BinaryDecoder).DecodeFixed64
+//@   props C20 C07
+//@   ensures ok: len(b) >= 8 ==> r1 == 8 && r0 == le64(b, 0)
+//@   ensures err: len(b) < 8 ==> r1 < 0
+
+//@ spec (BinaryDecoder).DecodeDouble
+//@   props C20 C07
+//@   ensures ok: len(b) >= 8 ==> r1 == 8 && bits(r0) == le64(b, 0)
+//@   ensures err: len(b) < 8 ==> r1 < 0
+
+//@ spec (BinaryDecoder).DecodeBytes
+//@   props C20 C07
+//@   ensures trunc: vlen(b, 0) == 0 ==> r1 < 0 && r2 == r1 && len(r0) == 0
+//@   ensures short: vlen(b, 0) > 0 && vval(b, 0) > uint64(len(b) - vlen(b, 0)) ==> r1 == -1 && r2 == -1 && len(r0) == 0
+//@   ensures ok: vlen(b, 0) > 0 && vval(b, 0) <= uint64(len(b) - vlen(b, 0)) ==> r1 == vlen(b, 0) && r2 == r1 + int(vval(b, 0)) && \
+//@       len(r0) == int(vval(b, 0)) && sameregion(r0, b) && offset(r0) == offset(b) + r1
+
+//@ spec (BinaryDecoder).DecodeString
+//@   props C20 C07
+//@   ensures trunc: vlen(b, 0) == 0 ==> r1 < 0 && r2 == r1 && len(r0) == 0
+//@   ensures short: vlen(b, 0) > 0 && vval(b, 0) > uint64(len(b) - vlen(b, 0)) ==> r1 == -1 && r2 == -1 && len(r0) == 0
+//@   ensures ok: vlen(b, 0) > 0 && vval(b, 0) <= uint64(len(b) - vlen(b, 0)) ==> r1 == vlen(b, 0) && r2 == r1 + int(vval(b, 0)) && \
+//@       len(r0) == int(vval(b, 0))
+//@   ensures bytes: vlen(b, 0) > 0 && vval(b, 0) <= uint64(len(b) - vlen(b, 0)) ==> forall i :: 0 <= i && i < len(r0) ==> r0[i] == b[vlen(b, 0) + i]
+
+// ---- BinaryEncoder -----------------------------------------------------------------------------
+//@ spec (BinaryEncoder).EncodeBool
+//@   props C20
+//@   use appends(r0, b, 1, ite(v, byte(1), byte(0)))
+
+//@ spec (BinaryEncoder).EncodeByte
+//@   props C20
+//@   use appends(r0, b, 1, v)
+
+//@ spec (BinaryEncoder).EncodeEnum
+//@   props C20
+//@   use appends(r0, b, vsize(uint64(v)), venc(uint64(v), k))
+
+//@ spec (BinaryEncoder).EncodeInt32
+//@   props C20
+//@   use appends(r0, b, vsize(uint64(v)), venc(uint64(v), k))
+
+//@ spec (BinaryEncoder).EncodeSint32
+//@   props C20
+//@   use appends(r0, b, vsize(zz(int64(v))), venc(zz(int64(v)), k))
+
+//@ spec (BinaryEncoder).EncodeUint32
+//@   props C20
+//@   use appends(r0, b, vsize(uint64(v)), venc(uint64(v), k))
+
+//@ spec (BinaryEncoder).EncodeInt64
+//@   props C20
+//@   use appends(r0, b, vsize(uint64(v)), venc(uint64(v), k))
+
+//@ spec (BinaryEncoder).EncodeSint64
+//@   props C20
+//@   use appends(r0, b, vsize(zz(v)), venc(zz(v), k))
+
+//@ spec (BinaryEncoder).EncodeUint64
+//@   props C20
+//@   use appends(r0, b, vsize(v), venc(v, k))
+
+//@ spec (BinaryEncoder).EncodeSfixed32
+//@   props C20
+//@   use appends(r0, b, 4, byte(uint32(v) >> uint32(8*k)))
+
+//@ spec (BinaryEncoder).EncodeFixed32
+//@   props C20
+//@   use appends(r0, b, 4, byte(v >> uint32(8*k)))
+
+//@ spec (BinaryEncoder).EncodeFloat32
+//@   props C20
+//@   use appends(r0, b, 4, byte(bits(v) >> uint32(8*k)))
+
+//@ spec (BinaryEncoder).EncodeSfixed64
+//@   props C20
+//@   use appends(r0, b, 8, byte(uint64(v) >> uint64(8*k)))
+
+//@ spec (BinaryEncoder).EncodeFixed64
+//@   props C20
+//@   use appends(r0, b, 8, byte(v >> uint64(8*k)))
+
+//@ spec (BinaryEncoder).EncodeDouble
+//@   props C20
+//@   use appends(r0, b, 8, byte(bits(v) >> uint64(8*k)))
+
+//@ spec (BinaryEncoder).EncodeString
+//@   props C20
+//@   cases vsize(uint64(len(v))) in 1..10
+//@   requires noalias: !sameregion(v, b)     // the appended value must not share b's backing array (sufficient; the weaker "not inside b's spare capacity" did not discharge within the solver budget)
+//@   use appends_ld(r0, b, v)
+
+//@ spec (BinaryEncoder).EncodeBytes
+//@   props C20
+//@   cases vsize(uint64(len(v))) in 1..10
+//@   requires noalias: !sameregion(v, b)     // the appended value must not share b's backing array (sufficient; the weaker "not inside b's spare capacity" did not discharge within the solver budget)
+//@   use appends_ld(r0, b, v)
